@@ -2305,10 +2305,12 @@ package gomatrixserverlib
 //@   nosafety
 //@   purecallbacks
 //@   requires forall id string :: id in r.isRejectedCache ==> r.isRejectedCache[id] == r.isRejectedFn(id)
+//@   requires r != nil && r.authProvider != nil && r.authProvider.events != nil && r.authProvider.roomIDs != nil && r.isRejectedCache != nil
 //@   ensures cache-stays-faithful: forall id string :: id in r.isRejectedCache ==> r.isRejectedCache[id] == r.isRejectedFn(id)
 //@   calls AddEvent@root never-a-rejected-auth-event: exists i int :: 0 <= i && i < len(root_event.AuthEventIDs()) && event == r.authEventMap[root_event.AuthEventIDs()[i]] && !r.isRejectedFn(root_event.AuthEventIDs()[i])
 //@   calls AddEvent@root adds-the-auth-event-not-the-event: exists i int :: 0 <= i && i < len(root_event.AuthEventIDs()) && root_event.AuthEventIDs()[i] in r.authEventMap && event == r.authEventMap[root_event.AuthEventIDs()[i]] && event.Type() == root_eventType && event.StateKeyEquals(root_stateKey)
 //@   loop 1: invariant 0 <= idx(1) && idx(1) <= len(event.AuthEventIDs()) && (forall id string :: id in r.isRejectedCache ==> r.isRejectedCache[id] == r.isRejectedFn(id))
+//@   assigns r.isRejectedCache[*], r.authProvider.events[*], r.authProvider.roomIDs[*]
 
 // CompactJSON never indexes out of range on a lexically well-formed JSON text (what json.Valid / gjson.Valid accept);
 // its output slice must not be the input's backing array
@@ -2528,6 +2530,13 @@ package gomatrixserverlib
 //@   property C18:safety
 //@   inline
 
+// StateNeededForAuth: builds a new StateNeeded; it appends only to slices of its own result and sorts those, so it
+// writes nothing the caller can see. ASSUMED (by inspection), used as a frame by authAndApplyEvents; what the
+// result contains is accumulateStateNeeded's verified contract per event.
+//@ func StateNeededForAuth
+//@   trusted
+//@   assigns nothing
+
 // AuthEventReferences (what EventBuilder.AddAuthEvents and PerformInvite put under auth_events): every needed event
 // the provider has is referenced - create, join rules, power levels, the member event of EVERY needed user and the
 // third-party-invite event of every needed token; a provider error is passed on.
@@ -2603,8 +2612,14 @@ package gomatrixserverlib
 //@   nosafety
 //@   opaque
 //@   requires r != nil
+//@   purecallbacks
+//@   requires forall id string :: id in r.isRejectedCache ==> r.isRejectedCache[id] == r.isRejectedFn(id)
+//@   ensures rejection-cache-stays-faithful: forall id string :: id in r.isRejectedCache ==> r.isRejectedCache[id] == r.isRejectedFn(id)
 //@   calls allowed@root provider-emptied-for-this-event: ncalls(Clear) == ncalls(allowed) + 1
 //@   loop 1: invariant ncalls(Clear) == ncalls(allowed)
+//@   loop 1: invariant rejection-cache-only-holds-what-the-oracle-said: forall id string :: id in r.isRejectedCache ==> r.isRejectedCache[id] == r.isRejectedFn(id)
+//@   loop 2: invariant rejection-cache-only-holds-what-the-oracle-said: forall id string :: id in r.isRejectedCache ==> r.isRejectedCache[id] == r.isRejectedFn(id)
+//@   loop 3: invariant rejection-cache-only-holds-what-the-oracle-said: forall id string :: id in r.isRejectedCache ==> r.isRejectedCache[id] == r.isRejectedFn(id)
 
 // Kahn's algorithm over auth events: while the incoming-edge counts are being collected no count is ever lowered
 // or reset (an event listed after one of its children keeps the edges already counted)
